@@ -70,7 +70,7 @@ P = {
    note=TRUST + " StcoBox::try_from is assumed in Verus (iterator adapters) and checked by Kani for tables of at most 3 entries (bounded, labelled so in the evidence)."),
  'C14': dict(claim=True, cat='other', technique='Verus: Mp4TrackWriter::new postcondition, constructor contracts, accessor contracts, ftyp/mdhd/tkhd codecs, language packing; Kani cross-checks',
    text=("Proved: Mp4TrackWriter::new stores track id, timescale, language and the media kind selected by the configuration and rejects exactly the configurations outside track_config_ok; the sample-entry constructors copy width/height, parameter sets, "
-         "object type / frequency index / channel configuration codes; ftyp, mdhd (incl. the ISO-639 packing, proved inverse on all 15-bit codes), tkhd encode/decode byte-exactly; Mp4Reader brand/timescale accessors return the decoded fields; durations are converted as specified. "
+         "object type / frequency index / channel configuration codes; ftyp, mdhd (incl. the ISO-639 packing, proved inverse on all 15-bit codes), tkhd encode/decode byte-exactly; Mp4Reader brand/timescale accessors and every Mp4Track configuration accessor (track id / type, media type, sample-entry type, width, height, language, timescale, AAC object type / frequency index / channel configuration, AVC profile, SPS, PPS) are proved to return the parsed field through the code tables; durations are converted as specified. "
          "The reader side of the configuration is proved from the file bytes: stsd selects the sample entry, avc1 width/height and the avcC record (profile bytes, every SPS/PPS verbatim) are the decoding of the child found on the sibling chain; the AudioSpecificConfig encoder/decoder pair is byte-exact with a proved round-trip lemma on the encodable domain. "
          "the avcC encoder is byte-exact against a reference encoder whose output is proved (lemma_avcc_roundtrip) to decode to the same record. "
          "hev1 / hvcC header / vp09 / vpcC / tx3g entries are decoded against layout predicates as well. Level 'other': the esds descriptor nesting and the hev1 / vp09 / tx3g encoders' field values are not under functional contract, and the end-to-end composition is not one lemma."),
